@@ -96,7 +96,7 @@ Module GrpS.
   (* pinned tree: the full statement is false — a forwarder passes handleError's closed check, Close runs to
      completion of close(c.errors), the forwarder sends *)
   Definition racy_cfg : cfg :=
-    {| ret_err := true; ecap := 1; nclaims := 1; retry := 1; elock := false; fuel0 := 5; work0 := 5; max_calls := 2; max_consume := 2 |}.
+    {| ret_err := true; ecap := 1; nclaims := 1; retry := 1; elock := false; hctx := false; fuel0 := 5; work0 := 5; max_calls := 2; max_consume := 2 |}.
   Definition racy_schedule : list act :=
     [ACCall; ACLock; ACRefresh true; ACJoin JOk; ACSetup SOk;      (* a session with one claim is running *)
      AFwCheck;                                                       (* a forwarder passes `select { case <-c.closed ... default }` *)
